@@ -28,7 +28,8 @@ Theorem C08_side_shapes :
   && gen_break_scope_pops_before_jump && gen_unwind_pops_innermost && gen_unwind_truncates_and_jumps_to_catch
   && gen_handler_records_heights && gen_end_finally_rethrows && gen_end_finally_resumes_return
   && gen_jump_finally_targets_finally && gen_throw_unwinds && gen_push_handler_offsets
-  && gen_error_pushed_by_vm_poked_by_native && gen_return_jump_finally_for_every_function_kind = true.
+  && gen_error_pushed_by_vm_poked_by_native && gen_return_jump_finally_for_every_function_kind
+  && gen_call_closure_limits_are_thrown = true.
 Proof. vm_compute; reflexivity. Qed.
 Theorem C08_side_frames : N.to_nat Consts.FRAMES_MAX = Handlers.FRAMES_MAX.
 Proof. vm_compute; reflexivity. Qed.
